@@ -23,7 +23,7 @@ def prior_state(draw, allow_none=True, lies=True, conflicts=True,
                 junk=True, hidden=True, dir_links=True, max_dirs=4,
                 max_files=7, sub_prob=(1, 2), ignores=True, dist=True,
                 timestamp=True, second_manifest=True, odd_spellings=True,
-                dual_listed=False, root_junk=False):
+                dual_listed=False, root_junk=False, dup_refs=True):
     """Tree + arbitrary prior Manifest state.
     Returns {'tree', 'manifests', 'pre_ops', 'tags', 'mode'}."""
     spec = draw(treegen.tree_spec(max_dirs=max_dirs, max_files=max_files,
@@ -40,7 +40,15 @@ def prior_state(draw, allow_none=True, lies=True, conflicts=True,
                              sub_prob=sub_prob, ignores=ignores, dist=dist,
                              timestamp=timestamp,
                              second_manifest=second_manifest,
-                             odd_spellings=odd_spellings))
+                             odd_spellings=odd_spellings,
+                             # (a sub-Manifest referenced from its parent
+                             # and once more from further up; the second
+                             # reference never lies here)
+                             dup_manifest_entries=dup_refs))
+    if dup_refs:
+        for m in lay['manifests']:
+            if m.get('extra_ref'):
+                m['extra_ref']['lie'] = False
     tags += lay['tags']
     manifests = lay['manifests']
     # files without entries
